@@ -79,6 +79,7 @@ class State:
         self.effects = []
         self.known = {}   # canonical discriminant/bool value -> chosen value
         self.nfid = 0
+        self.notes = {}   # per-path annotations (e.g. which sequence a loop ranges over)
 
     def fork(self):
         s = State()
@@ -87,6 +88,7 @@ class State:
         s.effects = list(self.effects)
         s.known = dict(self.known)
         s.nfid = self.nfid
+        s.notes = dict(self.notes)
         return s
 
 
@@ -113,8 +115,9 @@ def float_const(c):
 
 
 class SymEx:
-    def __init__(self, facts, max_depth=8, max_paths=400, opaque=(), models=None):
+    def __init__(self, facts, max_depth=8, max_paths=400, opaque=(), models=None, seq_sources=()):
         self.f = facts
+        self.seq_sources = tuple(seq_sources)   # callee-name suffixes whose (opaque) result is a symbolic sequence
         self.max_depth = max_depth
         self.max_paths = max_paths
         self.opaque = set(opaque)          # workspace fn-name suffixes NOT to inline
@@ -612,7 +615,11 @@ class SymEx:
                 raise PathAbort('callee has no returning path')
             return res
         self.opaque_calls.add(name)
-        return [(st, APP(short_name(name), *[self.deep(st, a) for a in args]))]
+        app = APP(short_name(name), *[self.deep(st, a) for a in args])
+        if self.seq_sources and any(name.endswith(x) for x in self.seq_sources):
+            # a sequence of unknown length: {elem($x) | $x in base, position $i >= start}
+            return [(st, ('sseq', app, SYM('$x'), NUM(0)))]
+        return [(st, app)]
 
     # ---------------------------------------------------------------- closures and Option combinators
     def spread(self, st, tup, n):
@@ -816,7 +823,8 @@ class SymEx:
             return None
         trait = (t or {}).get('func', {}).get('trait') or ''
         seqish = ('Iterator' in trait or 'IntoIterator' in trait or '<impl [T]>::' in name or 'Vec::<T, A>::' in name
-                  or 'Vec::<T>::' in name or 'array' in name or 'slice::' in name or 'Itertools' in trait)
+                  or 'Vec::<T>::' in name or 'array' in name or 'slice::' in name or 'Itertools' in trait
+                  or 'ops::Index' in trait or 'ops::Deref' in trait or 'Borrow' in trait or 'AsRef' in trait or 'Extend' in trait)
         if not seqish:
             return None
         items = self.as_seq(st, args[0])
@@ -824,6 +832,10 @@ class SymEx:
         for _ in range(3):
             if isinstance(a0, tuple) and a0[0] == 'ref':
                 a0 = self.load(st, a0)
+        if isinstance(a0, tuple) and a0[0] == 'sseq':
+            r = self.model_sseq(st, last, a0, args, depth)
+            if r is not None:
+                return r
         if isinstance(a0, tuple) and a0[0] == 'seqmin' and last in ('iter', 'into_iter', 'collect', 'chain', 'by_ref', 'to_vec', 'from_iter'):
             return [(st, a0)]       # known prefix, unknown tail: still at least the prefix
         if items is not None and last == 'chain' and len(args) == 2 and self.as_seq(st, args[1]) is None and \
@@ -838,6 +850,16 @@ class SymEx:
                 new = base + [self.deep(st, args[1]) if args[1][0] != 'ref' else args[1]]
             else:
                 other = self.as_seq(st, args[1])
+                o1 = args[1]
+                for _ in range(3):
+                    if isinstance(o1, tuple) and o1[0] == 'ref':
+                        o1 = self.load(st, o1)
+                if other is None and isinstance(o1, tuple) and o1[0] == 'sseq' and not base:
+                    # an empty Vec extended by a symbolic sequence IS that sequence
+                    r = args[0]
+                    b0 = st.frames[r[1]].get(r[2])
+                    st.frames[r[1]][r[2]] = self._set_path(b0, list(r[3]), o1) if r[3] else o1
+                    return [(st, UNIT)]
                 if other is None:
                     return None
                 new = base + other
@@ -944,6 +966,42 @@ class SymEx:
                     x = self.load(st, x)
                 acc = self.binop('Add', acc, x)
             return [(st, acc)]
+        return None
+
+    def model_sseq(self, st, last, sq, args, depth):
+        """Adaptors on a symbolic sequence ('sseq', base, elem, start): elementwise maps compose into `elem`, windows add to
+        `start`, materialising/borrowing steps are the identity."""
+        _, base, elem, start = sq
+        if last in ('iter', 'into_iter', 'iter_mut', 'by_ref', 'collect', 'as_slice', 'as_mut_slice', 'to_vec', 'into_vec', 'deref',
+                    'deref_mut', 'borrow', 'as_ref', 'from_iter', 'cloned', 'copied', 'into_par_iter', 'par_iter') and len(args) == 1:
+            return [(st, sq)]
+        if last == 'map' and len(args) == 2:
+            rs = self.call_closure(st, args[1], [elem], depth)
+            if rs is None or len(rs) != 1:
+                return None
+            return [(rs[0][0], ('sseq', base, self.deep(rs[0][0], rs[0][1]), start))]
+        if last == 'enumerate' and len(args) == 1:
+            idx = self.binop('Sub', SYM('$i'), start) if start != NUM(0) else SYM('$i')
+            return [(st, ('sseq', base, STRUCT('(tuple)', None, [('0', idx), ('1', elem)]), start))]
+        if last == 'skip' and len(args) == 2:
+            return [(st, ('sseq', base, elem, self.binop('Add', start, self.deep(st, args[1]))))]
+        if last in ('index', 'index_mut') and len(args) == 2:
+            rg = args[1]
+            if rg[0] == 'ref':
+                rg = self.load(st, rg)
+            if rg[0] == 'struct' and 'RangeFrom' in rg[1]:
+                return [(st, ('sseq', base, elem, self.binop('Add', start, self.deep(st, sfield(rg, 'start')))))]
+            return None
+        if last == 'zip' and len(args) == 2:
+            o = args[1]
+            for _ in range(3):
+                if isinstance(o, tuple) and o[0] == 'ref':
+                    o = self.load(st, o)
+            if isinstance(o, tuple) and o[0] == 'sseq' and o[1] == base and o[3] == start:
+                return [(st, ('sseq', base, STRUCT('(tuple)', None, [('0', elem), ('1', o[2])]), start))]
+            return None
+        if last in ('len', 'count'):
+            return [(st, APP('len', base))]
         return None
 
     # ---------------------------------------------------------------- models of external callees
@@ -1181,3 +1239,30 @@ def resolve_option_returns(sx, outs):
             elif k == 0:
                 o.ret = STRUCT('std::option::Option', ('None', 0), [])
     return outs
+
+
+def subst_value(v, mapping):
+    """Replace symbols in a value by values ({name: value})."""
+    if not isinstance(v, tuple):
+        return v
+    if v[0] == 'sym':
+        if v[1] in mapping:
+            return mapping[v[1]]
+        # a symbol derived from a substituted one (`item7.0[0,2]`, `item7#Some.0`): rename its stem
+        for k, r in mapping.items():
+            if v[1].startswith(k) and len(v[1]) > len(k) and v[1][len(k)] in '.#[' and isinstance(r, tuple) and r[0] == 'sym':
+                return ('sym', r[1] + v[1][len(k):])
+        return v
+    if v[0] in ('bin', 'cmp'):
+        return (v[0], v[1], subst_value(v[2], mapping), subst_value(v[3], mapping))
+    if v[0] == 'un':
+        return (v[0], v[1], subst_value(v[2], mapping))
+    if v[0] == 'app':
+        return (v[0], v[1], tuple(subst_value(x, mapping) for x in v[2]))
+    if v[0] == 'struct':
+        return (v[0], v[1], v[2], tuple((k, subst_value(x, mapping)) for k, x in v[3]))
+    if v[0] == 'sseq':
+        return (v[0], subst_value(v[1], mapping), v[2], subst_value(v[3], mapping))
+    if v[0] == 'seq':
+        return (v[0], tuple(subst_value(x, mapping) for x in v[1]))
+    return v
